@@ -24,6 +24,7 @@ type Loc struct {
 	typ   types.Type // type of the stored value
 	sub   bool   // location is an embedded struct: its "address" is a sub-object ref
 	subRef string
+	space string // "" / "F": heap; "V": value space (struct values and non-escaping struct locals)
 }
 
 type deferRec struct {
@@ -48,6 +49,7 @@ type Frame struct {
 	rets   []retRec
 	specEnv map[string]specVal // extra names (entry values)
 	closures map[ssa.Value]*ssa.MakeClosure
+	curBlock *ssa.BasicBlock
 }
 
 type retRec struct {
@@ -280,6 +282,28 @@ func (vc *VC) enterLoop(fr *Frame, h *ssa.BasicBlock, edges []edgeState, ord int
 		entryPhi[phi] = vc.def(vc.sortOf(phi.Type()), iteChain(pcs, vals), "phi0_"+phi.Comment)
 	}
 	lc := vc.loopContract(fr, ord)
+	// engine-supplied invariant of every range-over-slice loop: the hidden index starts at -1 and only grows
+	for _, instr := range h.Instrs {
+		phi, ok := instr.(*ssa.Phi)
+		if !ok {
+			break
+		}
+		if phi.Comment == "rangeindex" {
+			if lc == nil {
+				lc = &LoopContract{}
+				vc.autoLoops[loopKey{fr.fn, ord}] = lc
+			}
+			has := false
+			for _, inv := range lc.Invariants {
+				if inv == "-1 <= ri" {
+					has = true
+				}
+			}
+			if !has {
+				lc.Invariants = append([]string{"-1 <= ri"}, lc.Invariants...)
+			}
+		}
+	}
 	// invariant on entry
 	for phi, v := range entryPhi {
 		fr.env[phi] = v
@@ -335,6 +359,11 @@ func (vc *VC) enterLoop(fr *Frame, h *ssa.BasicBlock, edges []edgeState, ord int
 			continue
 		}
 		cur.vars[k] = vc.fresh(vc.svSort[k], "havoc_"+k)
+	}
+	for _, k := range mk {
+		if _, ok := vc.svSort[k]; ok && k != "G_alloc" {
+			vc.refAxiom(cur.pc, k, cur.vars[k], vc.allocBound(cur))
+		}
 	}
 	for _, instr := range h.Instrs {
 		phi, ok := instr.(*ssa.Phi)
@@ -434,7 +463,15 @@ func (vc *VC) backEdge(fr *Frame, from, h *ssa.BasicBlock, st *State, ord int) {
 	}
 }
 
+type loopKey struct {
+	fn  *ssa.Function
+	ord int
+}
+
 func (vc *VC) loopContract(fr *Frame, ord int) *LoopContract {
+	if lc, ok := vc.autoLoops[loopKey{fr.fn, ord}]; ok {
+		return lc
+	}
 	var fc *FuncContract
 	if fr.top {
 		fc = vc.fc
@@ -449,6 +486,7 @@ func (vc *VC) loopContract(fr *Frame, ord int) *LoopContract {
 
 // execBlock executes the non-phi instructions of b and distributes states to successors.
 func (vc *VC) execBlock(fr *Frame, b *ssa.BasicBlock, st *State, in map[*ssa.BasicBlock][]edgeState, loops map[*ssa.BasicBlock]int) {
+	fr.curBlock = b
 	for _, instr := range b.Instrs {
 		if _, ok := instr.(*ssa.Phi); ok {
 			continue
@@ -472,6 +510,9 @@ func (vc *VC) execBlock(fr *Frame, b *ssa.BasicBlock, st *State, in map[*ssa.Bas
 				vals[i] = vc.value(fr, st, r)
 			}
 			fr.rets = append(fr.rets, retRec{st: st, vals: vals})
+			if fr.top && vc.inSpec == 0 {
+				vc.cover(st, fmt.Sprintf("return%d", vc.ordinal("cover/return")), "this return statement is reachable under the precondition", x.Pos())
+			}
 			return
 		case *ssa.Panic:
 			vc.oblige(st, "panic", fmt.Sprintf("%s%d", fnTagDot(fr), vc.ordinal("panic")), "explicit panic is unreachable", "false", x.Pos())
@@ -620,19 +661,33 @@ func (vc *VC) fieldSV(structT types.Type, idx int) (string, types.Type) {
 	st := structT.Underlying().(*types.Struct)
 	f := st.Field(idx)
 	name := "F_" + sanitizeID(typeKey(structT)) + "_" + f.Name()
-	vc.svDeclare(name, fmt.Sprintf("(Array Int %s)", vc.sortOf(f.Type())))
+	vc.svDeclareT(name, fmt.Sprintf("(Array Int %s)", vc.sortOf(f.Type())), f.Type(), 1, "")
 	return name, f.Type()
+}
+
+// valSV: field array of struct *values* (immutable copies), kept apart from the heap arrays so that
+// copying a struct value never touches the heap.
+func (vc *VC) valSV(structT types.Type, idx int) string {
+	st := structT.Underlying().(*types.Struct)
+	f := st.Field(idx)
+	name := "V_" + sanitizeID(typeKey(structT)) + "_" + f.Name()
+	if _, ok := vc.svSort[name]; !ok {
+		vc.svDeclareT(name, fmt.Sprintf("(Array Int %s)", vc.sortOf(f.Type())), f.Type(), 1, "")
+		// the zero struct value is the value object 0
+		vc.emit(fmt.Sprintf("(assert (= (select %s 0) %s))", vc.svInit[name], vc.zeroOf(f.Type())))
+	}
+	return name
 }
 
 func (vc *VC) cellSV(t types.Type) string {
 	name := "C_" + sanitizeID(typeKey(t))
-	vc.svDeclare(name, fmt.Sprintf("(Array Int %s)", vc.sortOf(t)))
+	vc.svDeclareT(name, fmt.Sprintf("(Array Int %s)", vc.sortOf(t)), t, 1, "")
 	return name
 }
 
 func (vc *VC) elemSV(t types.Type) string {
 	name := "E_" + sanitizeID(typeKey(t))
-	vc.svDeclare(name, fmt.Sprintf("(Array Int (Array Int %s))", vc.sortOf(t)))
+	vc.svDeclareT(name, fmt.Sprintf("(Array Int (Array Int %s))", vc.sortOf(t)), t, 2, "Int")
 	return name
 }
 
@@ -673,14 +728,25 @@ func structSlots(t types.Type) int {
 }
 
 func (vc *VC) fieldLoc(base string, structT types.Type, idx int) *Loc {
+	return vc.fieldLocSp(base, structT, idx, "F")
+}
+
+func (vc *VC) fieldLocSp(base string, structT types.Type, idx int, space string) *Loc {
 	st := structT.Underlying().(*types.Struct)
 	ft := st.Field(idx).Type()
 	if isStructLike(ft) {
 		off := subOffset(structT, idx)
-		return &Loc{kind: "sub", typ: ft, sub: true, subRef: fmt.Sprintf("(+ %s %d)", base, off), base: base}
+		return &Loc{kind: "sub", typ: ft, sub: true, subRef: fmt.Sprintf("(+ %s %d)", base, off), base: base, space: space}
 	}
-	sv, _ := vc.fieldSV(structT, idx)
-	return &Loc{kind: "field", sv: sv, base: base, typ: ft}
+	sv := vc.spaceSV(space, structT, idx)
+	return &Loc{kind: "field", sv: sv, base: base, typ: ft, space: space}
+}
+
+func locSpace(loc *Loc) string {
+	if loc.space == "V" {
+		return "V"
+	}
+	return "F"
 }
 
 // locOfPointer gives the location an arbitrary pointer term of type *T refers to.
@@ -700,9 +766,9 @@ func (vc *VC) readLoc(st *State, loc *Loc) string {
 	case "global":
 		return vc.get(st, loc.sv)
 	case "sub":
-		// whole-struct read: copy out to a fresh value object
+		// whole-struct read: copy out to a fresh value object (value space)
 		v := vc.alloc(st, "structval")
-		vc.copyStruct(st, v, loc.subRef, loc.typ)
+		vc.copyStructSp(st, "V", v, locSpace(loc), loc.subRef, loc.typ)
 		return v
 	}
 	panic("bad loc")
@@ -718,7 +784,31 @@ func (vc *VC) writeLoc(st *State, loc *Loc, val string) {
 	case "global":
 		vc.set(st, loc.sv, val)
 	case "sub":
-		vc.copyStruct(st, loc.subRef, val, loc.typ)
+		vc.copyStructSp(st, locSpace(loc), loc.subRef, "V", val, loc.typ)
+	}
+}
+
+func (vc *VC) spaceSV(space string, t types.Type, i int) string {
+	if space == "V" {
+		return vc.valSV(t, i)
+	}
+	sv, _ := vc.fieldSV(t, i)
+	return sv
+}
+
+// copyStructSp copies every field of the struct at ref src (in srcSpace) to ref dst (in dstSpace).
+func (vc *VC) copyStructSp(st *State, dstSpace, dst, srcSpace, src string, t types.Type) {
+	s := t.Underlying().(*types.Struct)
+	for i := 0; i < s.NumFields(); i++ {
+		ft := s.Field(i).Type()
+		if isStructLike(ft) {
+			off := subOffset(t, i)
+			vc.copyStructSp(st, dstSpace, fmt.Sprintf("(+ %s %d)", dst, off), srcSpace, fmt.Sprintf("(+ %s %d)", src, off), ft)
+			continue
+		}
+		d := vc.spaceSV(dstSpace, t, i)
+		sr := vc.spaceSV(srcSpace, t, i)
+		vc.set(st, d, fmt.Sprintf("(store %s %s (select %s %s))", vc.get(st, d), dst, vc.get(st, sr), src))
 	}
 }
 
@@ -738,14 +828,18 @@ func (vc *VC) copyStruct(st *State, dst, src string, t types.Type) {
 }
 
 func (vc *VC) zeroStruct(st *State, dst string, t types.Type) {
+	vc.zeroStructSp(st, dst, t, "F")
+}
+
+func (vc *VC) zeroStructSp(st *State, dst string, t types.Type, space string) {
 	s := t.Underlying().(*types.Struct)
 	for i := 0; i < s.NumFields(); i++ {
 		ft := s.Field(i).Type()
 		if isStructLike(ft) {
-			vc.zeroStruct(st, fmt.Sprintf("(+ %s %d)", dst, subOffset(t, i)), ft)
+			vc.zeroStructSp(st, fmt.Sprintf("(+ %s %d)", dst, subOffset(t, i)), ft, space)
 			continue
 		}
-		sv, _ := vc.fieldSV(t, i)
+		sv := vc.spaceSV(space, t, i)
 		vc.set(st, sv, fmt.Sprintf("(store %s %s %s)", vc.get(st, sv), dst, vc.zeroOf(ft)))
 	}
 }
